@@ -51,7 +51,7 @@ ASSUME = [
 
 T = ("tcp", "tls", "btcp", "btls", "utlstls")
 TLS = ("tls", "btls", "utlstls")
-MENU = "menu=0x77f"      # every I/O deviation except connect latency
+MENU = "menu=0x777"      # short counts, write stall, trickle, accept EAGAIN, EPIPE-at-once; see ASSUME for what is left out
 SCRIPTS = (("ssfrrc", "rrssf", "rsf"), ("fssfrrc", "frrssf", "srf"), ("rrssfc", "ssfrr", "fsr"))
 
 
